@@ -27,7 +27,7 @@ func RunIso(c Case) int {
 		remote lime.Node
 	}
 	var mu sync.Mutex
-	known := map[string]info{}       // client name -> what its established session says
+	known := map[string]info{}           // client name -> what its established session says
 	registered := map[string]lime.Node{} // client name -> what Register returned for it
 
 	scfg := lime.NewServerConfig()
@@ -132,7 +132,9 @@ func RunIso(c Case) int {
 			ectx, ecancel := context.WithTimeout(ctx, 10*time.Second)
 			ses, err := cc.EstablishSession(ectx, lime.NoneCompressionSelector, lime.NoneEncryptionSelector,
 				lime.Identity{Name: name, Domain: "example.com"},
-				func([]lime.AuthenticationScheme, lime.Authentication) lime.Authentication { return &lime.GuestAuthentication{} }, "i")
+				func([]lime.AuthenticationScheme, lime.Authentication) lime.Authentication {
+					return &lime.GuestAuthentication{}
+				}, "i")
 			ecancel()
 			if err != nil || ses.State != lime.SessionStateEstablished {
 				// the server is up and the connection was made: this connection is not served as a
